@@ -122,6 +122,24 @@ type Frag struct {
 	Done    bool // is the current frag completed
 }
 
+// Fail completes the request this fragment belongs to with err, exactly like an error reply
+// from redis does: the sibling fragments are marked done so that their late replies are dropped.
+func (f *Frag) Fail(err codec.Error) {
+	f.Error = err
+	f.Done = true
+	msg := f.Peer
+	if msg == nil {
+		return
+	}
+	msg.Error = err
+	msg.FragDoneNumber = len(msg.Body)
+	msg.RspBody = append(msg.RspBody[:0], err.Bytes()...)
+	msg.Done = true
+	for _, v := range msg.Body {
+		v.Done = true
+	}
+}
+
 func (f *Frag) MsgId() uint64 {
 	if f.Peer == nil {
 		return 0
